@@ -169,6 +169,16 @@ class Spawn(SimAlgo):
         return True
 
 
+class HedgeRisksOf(SimAlgo):
+    """HedgeRisks(measures, strategy=<a sibling strategy of the target>): the library algo, built with the live sibling node (a
+    paper copy has no sibling: there it hedges the target alone)"""
+
+    def __call__(self, target):
+        sp = self.spec
+        other = target.parent.children[sp["book"]] if self.live(target) and target.parent is not target else None
+        return self.sim.bt.algos.HedgeRisks(sp["measures"], pseudo=sp.get("pseudo", False), strategy=other)(target)
+
+
 class Wrap(SimAlgo):
     """oracle wrapper: snapshots inputs, calls the wrapped stock algo, hands both to a monitor"""
 
@@ -214,6 +224,8 @@ def build(bt, spec, sim):
         return PermGate(sim, spec)
     if a == "Spawn":
         return Spawn(sim, spec)
+    if a == "HedgeRisksOf":
+        return HedgeRisksOf(sim, spec)
     if a == "Probe":
         return Probe(sim, spec, build(bt, spec["inner"], sim))
     if a == "Wrap":
